@@ -39,6 +39,10 @@ def c04_1(c: Ctx) -> None:
             c.fail(u, f'inline branch awaits {U(v)[:90]}', f'the handler branch of `await event` blocks on `{U(v)[:60]}` while holding the processing lock: nothing can complete the awaited event (deadlock)', node=a)
     for n in own_nodes(u.node):
         if isinstance(n, (ast.AsyncWith, ast.AsyncFor)) and q.lexically_in(n, br, 'body'):
+            if isinstance(n, ast.AsyncWith) and len(n.items) == 1 and (t_ := c.prog.infer(n.items[0].context_expr, u)) is not None and t_.kind == 'cls' and t_.name == 'ReentrantLock' \
+                    and 'holds_global_lock.get()' in U(br.test):
+                c.ok(where(u, n), 'nested entry of the re-entrant global lock on a branch entered only while this context owns it: does not wait')
+                continue
             c.fail(u, f'inline branch uses {type(n).__name__}: {q.stmt_text(n, 70)}', 'the handler branch of `await event` may block in an async with/for while holding the processing lock', node=n)
 
 
@@ -117,13 +121,38 @@ def c04_4(c: Ctx) -> None:
                 return U(defs[0].value)
         return U(n.iter)
 
+    ALL_BUSES = ('list(EventBus.all_instances)', 'EventBus.all_instances', 'tuple(EventBus.all_instances)')
+
+    def iter_expr(n) -> ast.AST:
+        if isinstance(n.iter, ast.Name):
+            defs = [d for d in own_nodes(u.node) if isinstance(d, ast.Assign) and len(d.targets) == 1 and isinstance(d.targets[0], ast.Name) and d.targets[0].id == n.iter.id]
+            if len(defs) == 1 and U(defs[0].value) == iter_text(n):
+                return defs[0].value
+        return n.iter
+
+    def snapshot_filter(e: ast.AST) -> list[str] | None:
+        """`[b for b in list(EventBus.all_instances) if <tests on b>]` computed on the same round: the tests that are NOT among the allowed skips (None: not of this form)."""
+        if not (isinstance(e, (ast.ListComp, ast.GeneratorExp)) and len(e.generators) == 1 and isinstance(e.generators[0].target, ast.Name) and U(e.generators[0].iter) in ALL_BUSES
+                and isinstance(e.elt, ast.Name) and e.elt.id == e.generators[0].target.id):
+            return None
+        v = e.generators[0].target.id
+        keep_ok = {v, f'{v}.event_queue', f'{v}._is_running', f'{v} is not None', f'{v}.event_queue is not None'}
+        conj = [x for t in e.generators[0].ifs for x in (t.values if isinstance(t, ast.BoolOp) and isinstance(t.op, ast.And) else [t])]
+        return [U(x) for x in conj if U(x) not in keep_ok]
+
     loops = [n for n in own_nodes(u.node) if isinstance(n, (ast.For, ast.AsyncFor)) and 'all_instances' in iter_text(n) and q.lexically_in(n, br, 'body')]
     if len(loops) != 1 or not isinstance(loops[0].target, ast.Name):
         c.fail(u, f'{len(loops)} loops over EventBus.all_instances on the inline branch', 'the in-handler await does not look at every bus: a child dispatched to another bus can never be completed while the handler waits (deadlock / pending child)')
         return
     loop = loops[0]
     bus = loop.target.id
-    if iter_text(loop) not in ('list(EventBus.all_instances)', 'EventBus.all_instances', 'tuple(EventBus.all_instances)'):
+    extra = snapshot_filter(iter_expr(loop))
+    if iter_text(loop) in ALL_BUSES or extra == []:
+        pass
+    elif extra:
+        c.fail(u, f'the buses of a round are selected up front by `{" and ".join(extra)[:70]}`', 'the in-handler await drains only a subset of the buses: a bus that does not pass the test when the round starts is not '
+               'looked at on that round, although a handler run earlier in the round may just have queued the awaited event\'s descendant there (the next round starts with other buses\' unrelated events)', node=loop)
+    else:
         c.fail(u, f'bus loop iterates {iter_text(loop)[:60]}', 'the in-handler await drains only a subset of the buses', node=loop)
     head = g.nodes_of(loop, ('for',))[0]
     attempts = [n for n in g.live_nodes() if n.kind == 'if' and f'{bus}.event_queue.qsize()' in U(n.ast.test)] or [n for n in g.live_nodes() if q.node_calls(n, 'get_nowait')]
@@ -139,8 +168,9 @@ def c04_4(c: Ctx) -> None:
         dis = t.values if isinstance(t, ast.BoolOp) and isinstance(t.op, ast.Or) else [t]
         return all(U(x) in allowed for x in dis)
 
+    flags = Facts(lambda a: a.startswith('__inl_'), cg=c.cg, unit=u)  # flags introduced by folding a helper with early returns: correlated branches
     p = search([(head, ())], is_target=lambda n, d: n is head, is_barrier=lambda n, d: n.id in aid,
-               edge_ok=lambda n, e, d: None if (e.is_exc or (n is head and e.label != 'iter') or allowed_skip(n, e)) else d)
+               edge_ok=lambda n, e, d: None if (e.is_exc or (n is head and e.label != 'iter') or allowed_skip(n, e)) else flags.edge_ok(n, e, d), transfer=flags.transfer)
     if p is None:
         c.ok(where(u, loop), f'every running bus with a queue gets a dequeue attempt on every round (skips only: {sorted(allowed)[:3]}…)')
     else:
